@@ -1857,3 +1857,130 @@ def check_C18(run):
         run.cov['panic_sites_unclassified'] = st['panic-sites']
     run.cov['trusted_base'] = C.GLOBAL_TRUST + ['Lean totality says nothing about Rust panics: the proof side is the closed panic-site inventory (extracted) with a guard per group (panic_sites.json); groups classified environmental/differential are assumptions',
                                                 'inputs: file-system contents expressible on this host (tmpfs/ext4 as root), argv, YAML; Windows code paths are not compiled here']
+
+
+# ------------------------------------------------------------------ C17
+
+def c17_gen_tree(rng, root, max_entries):
+    """returns list of (relpath, kind) created under root; kinds: D F L(target)"""
+    from . import l3
+    ents = [('', 'D')]
+    dirs = ['']
+    names = ['a', 'b', 'skipme', 'keep', 'x.txt', 'y.tmp', 'é', 'sp ace', 'deep']
+    shape = rng.choice(['wide', 'deep', 'mixed', 'empty-dirs'])
+    n = rng.randint(0, max_entries)
+    made = set([''])
+    for i in range(n):
+        d = rng.choice(dirs[-3:] if shape == 'deep' else dirs)
+        name = rng.choice(names) + (str(i) if rng.random() < 0.7 else '')
+        p = (d + '/' + name) if d else name
+        if p in made: continue
+        made.add(p)
+        r = rng.random()
+        if shape == 'empty-dirs' or r < (0.5 if shape == 'deep' else 0.25):
+            ents.append((p, 'D')); dirs.append(p)
+        elif r < 0.9:
+            ents.append((p, 'F', b'x', 10**18))
+        else:
+            ents.append((p, 'L', rng.choice(['.', '..', '/tmp', 'nowhere', name])))
+    l3.make_tree(root, ents)
+    return ents
+
+
+def c17_expected(ents, filters):
+    """independent walk: an entry is listed iff it and every ancestor pass the filters (root exempt)"""
+    import re
+    def verdict(p):
+        v = None
+        for f in filters:
+            if re.fullmatch(f[1:], p):
+                v = f[0] == '+'
+        if v is None:
+            v = not filters or filters[0][0] == '-'
+        return v
+    out = {}
+    kinds = {e[0]: e[1] for e in ents}
+    for e in ents:
+        p = e[0]
+        if p == '': continue
+        parts = p.split('/')
+        if all(verdict('/'.join(parts[:k + 1])) for k in range(len(parts))) and all(kinds.get('/'.join(parts[:k])) == 'D' for k in range(1, len(parts))):
+            out[p] = e[1]
+    return out
+
+
+@prop('C17')
+def check_C17(run):
+    from . import l3
+    import shutil
+    thorough = run.tier == 'thorough'
+    if not prepare(run):
+        return
+    C.proofs_step(run, 'C17')
+    rng = run.rng
+    run.cov['rule'] = ('L3: the real doer\'s GetEntries (real parallel_walk_dir) on generated trees (wide, deep, empty folders, symlinks to folders / ancestors / nothing, > result-queue-bound entries) with the '
+                       'worker-count override 1,2,4,16 and scheduling jitter; oracle = an independent walk: same multiset of paths and kinds, every folder before anything inside it, nothing beneath an excluded '
+                       'folder or through a symlink, end marker present, finishes under the watchdog; an unreadable folder (as uid 65534) must give an error and no end marker; non-trivial = more than 3 listed entries; distinct by (tree, filters, threads)')
+    d = l3.scratch()
+    try:
+        os.chmod(d, 0o755)
+        trees = []
+        ntrees = 40 if not thorough else 400
+        for t in range(ntrees):
+            root = os.path.join(d, f't{t}')
+            ents = c17_gen_tree(rng, root, rng.choice([5, 20, 60]))
+            filters = rng.choice([[], ['-skipme.*'], ['-.*/skipme.*', '-skipme.*'], ['+.*', '-.*\\.tmp'], ['-deep.*', '+deep1'], ['+keep.*|a.*|b.*|deep.*']])
+            trees.append((root, ents, filters))
+        # one big tree (more entries than the result queue holds)
+        root = os.path.join(d, 'big'); ents = [('', 'D')] + [(f'd{i}', 'D') for i in range(30)] + [(f'd{i % 30}/f{i}', 'F', b'', 10**18) for i in range(1500 if not thorough else 50000)]
+        l3.make_tree(root, ents); trees.append((root, ents, []))
+        for threads in (1, 2, 4, 16):
+            env = dict(C.ENV, RJRSSYNC_VERIF_WALK_THREADS=str(threads), RJRSSYNC_VERIF_JITTER=str(rng.randint(1, 10**6)))
+            lines = [l3.l3_line([['SR', C.X(root)], ['GE', str(len(f))] + [C.X(x) for x in f]], 60000) for root, ents, f in trees]
+            res = C.run_harness(lines, timeout=1800, env=env)
+            for (root, ents, f), (ans, _) in zip(trees, res):
+                resp, status = l3.parse_resp(ans) if ans.startswith('resp=') else ([], ans)
+                listed = [(bytes.fromhex(cmd_args(x)[0]).decode(), cmd_args(x)[1][0]) for x in resp if x.startswith('Entry(')]
+                want = c17_expected(ents, f)
+                run.case(('walk', root, tuple(f), threads), len(listed) > 3, sample=dict(layer='L3', threads=threads, filters=f, entries_listed=len(listed), tree_entries=len(ents) - 1) if len(listed) > 3 and threads > 1 and len(listed) < 40 else None)
+                run.count(f'walk:threads={threads}'); run.cov['traces_validated_against_impl'] += 1
+                why = None
+                got = sorted(listed)
+                exp = sorted((p, {'D': 'D', 'F': 'F', 'L': 'L'}[k]) for p, k in want.items())
+                if status or 'EndOfEntries' not in resp or resp[-1] != 'EndOfEntries':
+                    why = f'no end marker / did not finish ({status or resp[-1:]})'
+                elif got != exp:
+                    extra = [x for x in got if x not in exp][:3]; missing = [x for x in exp if x not in got][:3]
+                    why = f'listing differs from the independent walk: extra {extra} missing {missing} (listed {len(got)}, expected {len(exp)})'
+                else:
+                    pos = {p: i for i, (p, _) in enumerate(listed)}
+                    for p in pos:
+                        par = p.rsplit('/', 1)[0] if '/' in p else None
+                        if par is not None and pos[par] > pos[p]:
+                            why = f'{p!r} is listed before its folder {par!r}'; break
+                if why:
+                    run.violation(dict(kind='oracle-failed-on-implementation', oracle=why, layer='L3', threads=threads, filters=f,
+                                       tree=[list(map(str, e[:2])) for e in ents][:80], impl=ans[:1500]))
+                    break
+            if run.violations:
+                break
+        # read error: an unreadable folder as an unprivileged user
+        root = os.path.join(d, 'unreadable'); l3.make_tree(root, [('', 'D'), ('ok', 'F', b'', 10**18), ('locked', 'D'), ('locked/inner', 'F', b'', 10**18), ('zz', 'D'), ('zz/f', 'F', b'', 10**18)])
+        os.chmod(os.path.join(root, 'locked'), 0)
+        import subprocess
+        def as_nobody():
+            os.setgroups([]); os.setgid(65534); os.setuid(65534)
+        for threads in (1, 4):
+            p = subprocess.run([C.HARNESS_BIN, '--verif'], input=l3.l3_line([['SR', C.X(root)], ['GE', '0']], 20000) + '\n', capture_output=True, text=True, preexec_fn=as_nobody,
+                               env=dict(C.ENV, RJRSSYNC_VERIF_WALK_THREADS=str(threads)), timeout=120)
+            ans = next((l[3:] for l in p.stdout.split('\n') if l.startswith('@@ ')), 'no answer')
+            run.case(('walk-read-error', threads), True, sample=dict(layer='L3', threads=threads, impl=ans[:300])); run.count('walk:read-error')
+            if 'Error(' not in ans or 'EndOfEntries' in ans:
+                run.violation(dict(kind='oracle-failed-on-implementation', oracle='a read error on a directory surfaces as an error, not as a silently shorter listing', layer='L3', threads=threads, impl=ans[:800]))
+        os.chmod(os.path.join(root, 'locked'), 0o755)
+    finally:
+        import subprocess as _sp
+        _sp.run(['chmod', '-R', 'u+rwx', d], capture_output=True); shutil.rmtree(d, ignore_errors=True)
+    run.cov['trusted_base'] = C.GLOBAL_TRUST + ['real thread timing is sampled (jitter hook); the schedule quantifier is carried by C17_terminates / C17_exactly_once over the transition system + the extracted worker-loop features',
+                                                'parent-before-child order is checked on the real walker only (oracle) and pinned by the extracted feature "entry sent before the job is queued"; it has no Lean theorem',
+                                                'crossbeam channels are FIFO; read_dir returns every entry once']
